@@ -931,9 +931,13 @@ impl StreamsState {
         let receive_window = receive_window.into();
         let mut expanded = false;
         if receive_window > self.receive_window {
-            self.local_max_data = self
-                .local_max_data
-                .saturating_add(receive_window - self.receive_window);
+            // Credit that an earlier shrink could not take back is still outstanding: the
+            // expansion first makes up for that, and only the rest is new credit. Otherwise the
+            // peer could end up with more credit than any window that was ever configured.
+            let increase: u64 = receive_window - self.receive_window;
+            let repaid = increase.min(self.receive_window_shrink_debt);
+            self.receive_window_shrink_debt -= repaid;
+            self.local_max_data = self.local_max_data.saturating_add(increase - repaid);
             expanded = true;
         } else {
             let diff = self.receive_window - receive_window;
